@@ -304,7 +304,8 @@ def main():
     rep = common.Report(PID, "model_checking")
     rep.rule = ("one case = (program skeleton, operation): content snapshot and dumps text before/after the operation compared on every symbolic path; "
                 "match_template cases and the instance-independence walk are concrete-structure runs (reported as such)")
-    rep.bounds = {"program skeletons": len(SCRIPTS), "operations": OPS, "sequences": "single operations (inductive step) + two fixed 2-3 step sequences"}
+    rep.bounds = {"program skeletons": len(SCRIPTS), "operations": OPS, "sequences": "single operations (inductive step) + two fixed 2-3 step sequences",
+                  "API route": "two of the skeletons are extended by hand after loading (SymPy expressions over register-like names, a further parameter, tuple modes, NumPy scalars)"}
     rep.assumptions = [
         "observable content = name, version, target, type, operations (keys and values), variables, parameters, modes, len, dumps() text",
         "match_template runs use concrete values (SymPy solve); the violations C13 targets are structural",
